@@ -131,7 +131,7 @@ fn pipeline(t: &mut Tape, ctx: &mut Ctx) -> CheckResult {
             break; // keep sizes bounded
         }
         let mut what: String;
-        match t.choice(16) {
+        match t.choice(17) {
             0 => {
                 let tl = type_list(t, al, 3);
                 let g = gen::diagram_with_boundary(t, &sz, al, &b, &tl, ctx);
@@ -191,6 +191,30 @@ fn pipeline(t: &mut Tape, ctx: &mut Ctx) -> CheckResult {
                     b = nb;
                 } else {
                     cur = img;
+                    a = optic_type(&o, &a);
+                    b = optic_type(&o, &b);
+                }
+            }
+            16 => {
+                // the lax optic entry points (residuals must be a function of the label there)
+                use open_hypergraphs::lax::optic::Optic as LaxOptic;
+                let keys = gen::op_keys(&[&cur_d]);
+                let o = super::c14::optic_table(t, al, &keys, false, ctx);
+                let adapted = t.chance(1, 2);
+                what = format!("lax optic{} {}", if adapted { " (map_adapted)" } else { "" }, o.pretty());
+                ctx.set_dump(format!("{log}\n  {what}"));
+                let lo = LOptic(o.clone());
+                let l = LOH::from_strict(cur.clone());
+                let mut img = if adapted { lo.map_adapted(l) } else { lo.map_arrow(l) };
+                from_lax(&img).map_err(|e| ctx.fail("output-well-formed", format!("{what}: {e}")))?;
+                img.quotient().map_err(|_| ctx.fail("output-well-formed", "lax optic image cannot be quotiented"))?;
+                cur = img.to_strict();
+                if adapted {
+                    let na: Vec<u32> = o.fwd.objects(&a).into_iter().chain(o.rev.objects(&b)).collect();
+                    let nb: Vec<u32> = o.fwd.objects(&b).into_iter().chain(o.rev.objects(&a)).collect();
+                    a = na;
+                    b = nb;
+                } else {
                     a = optic_type(&o, &a);
                     b = optic_type(&o, &b);
                 }
